@@ -1645,7 +1645,13 @@ impl AsExpandedName for XmlAttr {
                 .prefix()
                 .unwrap_or("xmlns")
                 .to_string();
-            let namespaces = XmlElement::from(element).in_scope_namespace()?;
+            // The default namespace does not apply to attributes: only a prefixed
+            // attribute has a namespace name.
+            let namespaces = if self.attribute.borrow().prefix().is_some() {
+                XmlElement::from(element).in_scope_namespace()?
+            } else {
+                vec![]
+            };
             if let Some(ns) = namespaces.iter().find(|v| v.node_name() == prefix) {
                 (Some(prefix), ns.node_value()?)
             } else {
